@@ -92,6 +92,7 @@ def _renamed_items(problem, writer):
 
 def run_case(key, tier, res):
     b = BOUNDS[tier]
+    res.count("tier:" + tier)
     rng = rng_for(key)
     rec, info = iofrag.gen_pddl_case(rng)
     explicit_env = rng.random() < 0.12
@@ -163,7 +164,7 @@ def check_problem(pb, rec, info, wbase, b, res, rng, explicit_env=False):
             if isinstance(ex, io_rt.READER_REJECTIONS):
                 res.count(f"rejected_by_reader:{which}:{type(ex).__name__}")
                 continue
-            mech = f"reader-raises:{which}:{io_rt.exc_class(ex)}" + (":explicit-environment" if explicit_env else sfx_raise)
+            mech = f"reader-raises:{which}:{io_rt.exc_class(ex)}" + (":explicit-environment" if explicit_env and "environment" in str(ex) else sfx_raise)
             viol(mech, f"PDDLReader({which}).parse_problem_string raised {ex!r} on the writer's output", domain=dom, problem=prob, reader=which, explicit_env=explicit_env)
             if explicit_env and "environment" in str(ex):
                 # continue with the default-environment mode so that the semantic comparison still happens
@@ -415,7 +416,7 @@ REQUIRED["thorough"] = {k: v * 5 for k, v in REQUIRED["quick"].items()}
 
 def thresholds(m):
     c = m["counters"]
-    tier = "thorough" if m["evaluations"] > 200000 or c.get("examples_checked") else "quick"
+    tier = "thorough" if c.get("tier:thorough") else "quick"
     out = []
     for k, v in REQUIRED[tier].items():
         if c.get(k, 0) < v:
